@@ -177,6 +177,7 @@ def execute(job):
         "build_rejected": result["build_rejected"],
         "uuid_collisions": result["uuid_collisions"],
         "stub_parallel": result["stub_parallel"],
+        "real_timeout_guard": result["real_timeout_guard"],
         "wall": wall,
         "n_events": len(result["events"]),
     }
@@ -209,7 +210,7 @@ def run_job(job, timeout=60):
         return {"status": "harness_error", "error": res["error"], "run_seed": plan["run_seed"]}
     out = {"status": "ok", "run_seed": plan["run_seed"], "digest": "crash:%d" % res["signal"], "verdict": verdict.to_json(),
            "faults": {"engine-crash": 1}, "fs_fired": 0, "steer_admitted": 0, "steer_refused": 0, "checks": 0, "sim_seconds": 0.0,
-           "inconclusive": 0, "build_rejected": None, "uuid_collisions": 0, "stub_parallel": False, "wall": 0.0, "n_events": 0}
+           "inconclusive": 0, "build_rejected": None, "uuid_collisions": 0, "stub_parallel": False, "real_timeout_guard": 0, "wall": 0.0, "n_events": 0}
     if job.get("want_plan") or verdict.violations:
         out["plan"] = plan
         out["concrete_plan"] = plan
